@@ -43,6 +43,7 @@ def shards(tier):
     n = len(gs.corpus())
     out += [{"space": "nl", "k": k, "n": 1 if tier == "quick" else 2} for k in range(n)]
     out += [{"space": "lits", "i": i} for i in range(len(LIT_ITEMS))]
+    out += [{"space": "typing", "name": n} for n in ("length", "count", "match", "search", "value", "nosuch")]
     return out
 
 
@@ -60,6 +61,20 @@ def deletions(q):
 
 
 def strings_of(desc):
+    if desc["space"] == "typing":
+        # every built-in called with every argument shape in every position (most are ill-typed):
+        # the type / name error must carry a real position, also across line breaks
+        import itertools
+        from mc.checks import c05
+        name = desc["name"]
+        n = len(c05.rt.BUILTINS.get(name, ((None,), None))[0])
+        for k in sorted({n, max(0, n - 1), n + 1}):
+            for args in itertools.product(c05.ARG_SHAPES[:16] + ["length(@)", "match(@, 'a')", "count(@.*)"], repeat=k):
+                call = f"{name}({', '.join(args)})"
+                for q in c05.positions(call)[:9]:
+                    yield q
+                    yield q.replace("[?", "[?\n ", 1)
+        return
     if desc["space"] == "lits":
         import itertools
         first = LIT_ITEMS[desc["i"]]
@@ -111,8 +126,10 @@ def check_query(text):
         return None, False
     except impl.JSONPathError as e:
         err = e
-    except Exception:  # noqa: BLE001  (C13's subject)
-        return None, False
+    except Exception as e:  # noqa: BLE001
+        # rejected, but not by an error that can carry a position at all
+        return violation("rejected-without-position", {"query": text}, "a JSONPathError with a token",
+                         {"raised": type(e).__name__}, "bad-position"), True
     case = {"query": text}
     tok = getattr(err, "token", None)
     try:
